@@ -155,25 +155,32 @@ Definition set_port (s : ustate) (a : portarg) : ustate :=
 
 (* protocol setter (argument already cut at ':' and lower-cased) *)
 
-(* host setter: result and whether it throws *)
+(* host setter: result and whether it throws. Since fix 1638926 the setters work on a copy of the url.URL and store it only when
+   fixURL has not thrown: a host that cannot be normalised (an invalid punycode label) throws and leaves the URL as it was. *)
 Definition set_host (s : ustate) (v : zs) : ustate * bool :=
   if host_ok (scheme s) v then
     let h1 := drop_default_port (scheme s) v in
     match fix_host (scheme s) h1 with
     | Some h2 => (s <| host := h2 |> <| upath := clean_path (upath s) (scheme s) |>, false)
-    | None => (s <| host := h1 |> <| upath := clean_path (upath s) (scheme s) |>, true)
+    | None => (s, true)
     end
   else (s, false).
 
 (* protocol setter: the scheme changes only between special and special (or non-special and non-special) and only if the
    host parses under the new scheme; then the default port of the NEW scheme is dropped and - since fix e9d39f9 - fixURL
    normalises the host for it (a host stored under file: was neither lower-cased nor punycoded). Result and whether it throws *)
+Definition is_alpha (c : Z) : bool := ((97 <=? c) && (c <=? 122)) || ((65 <=? c) && (c <=? 90)).
+Definition is_scheme_tail (c : Z) : bool := is_alpha c || ((48 <=? c) && (c <=? 57)) || (c =? 43) || (c =? 45) || (c =? 46).
+(* isValidScheme: a letter followed by letters, digits, '+', '-', '.' *)
+Definition valid_scheme (p : zs) : bool :=
+  match p with [] => false | c :: r => is_alpha c && forallb is_scheme_tail r end.
 Definition set_protocol (s : ustate) (p : zs) : ustate * bool :=
-  if Bool.eqb (is_special (scheme s)) (is_special p) && host_ok p (host s) then
+  if negb (valid_scheme p) then (s, false)
+  else if Bool.eqb (is_special (scheme s)) (is_special p) && host_ok p (host s) then
     let h1 := drop_default_port p (host s) in
     match fix_host p h1 with
     | Some h2 => (s <| scheme := p |> <| host := h2 |> <| upath := clean_path (upath s) p |>, false)
-    | None => (s <| scheme := p |> <| host := h1 |> <| upath := clean_path (upath s) p |>, true)
+    | None => (s, true)
     end
   else (s, false).
 
@@ -184,7 +191,7 @@ Definition set_hostname (s : ustate) (v : zs) : ustate * bool :=
     let h1 := match port_of (host s) with [] => v | p => v ++ 58 :: p end in
     match fix_host (scheme s) h1 with
     | Some h2 => (s <| host := h2 |> <| upath := clean_path (upath s) (scheme s) |>, false)
-    | None => (s <| host := h1 |> <| upath := clean_path (upath s) (scheme s) |>, true)
+    | None => (s, true)
     end
   else (s, false).
 
